@@ -118,7 +118,7 @@ def run_path(eng, pre, opcode, block_n=None, addr=0x1000, sym_addr=False, known=
 
             class _NoSpec:
                 defined, taken = [], None
-            _branch_obligations(eng, ev, _NoSpec, T(at), length, T(emu.regs.get(RN.PC)), text, conditional=False)
+            _branch_obligations(eng, ev, _NoSpec, T(at), length, T(emu.regs.get(RN.PC)), text, conditional=False, hook=(ev.instruction, a))
             return PathOutcome("branch-facts-only", text=text, detail=str(e))
         return PathOutcome("not-specified", text=text, detail=str(e))
     defined = z3.BoolVal(True)
@@ -236,16 +236,68 @@ def run_path(eng, pre, opcode, block_n=None, addr=0x1000, sym_addr=False, known=
         ob("reads", z3.Or([ra == x for x in allowed]))
     res.free = [f if isinstance(f, str) else f[0] for f in free]
     if branch_check:
-        _branch_obligations(eng, ev, st, T(at), length, final["PC"], text)
+        _branch_obligations(eng, ev, st, T(at), length, final["PC"], text, hook=(ev.instruction, a))
     return res
 
 
-def _branch_obligations(eng, ev, st, at, length, pc_final, text, conditional=True):
+def _hook_branches(eng, instr, a, length):
+    """What Binary Ninja is actually handed: SC62015.get_instruction_info at the same, possibly symbolic, address.
+    The callback's own decode() is cut by its contract (C01 proves it yields the instruction the fetch path yields):
+    it is replaced by a stub returning the instruction already decoded, so what is checked here is everything the
+    callback does on top of analyze()."""
+    from sc62015 import arch as ARCH
+    real = ARCH.decode
+    ARCH.decode = lambda data, addr, opcodes: instr
+    try:
+        info = ARCH.SC62015().get_instruction_info(bytes(length + 2), a)
+    finally:
+        ARCH.decode = real
+    if info is None:
+        return None
+    out = []
+    for b in list(getattr(info, "branches", []) or []):
+        bt = getattr(b, "type", None)
+        tgt = getattr(b, "target", None)
+        if bt is None and isinstance(b, tuple):
+            bt, tgt = b[0], (b[1] if len(b) > 1 else None)
+        out.append((bt, tgt))
+    return info, out
+
+
+def _branch_obligations(eng, ev, st, at, length, pc_final, text, conditional=True, hook=None):
     """C05: static branch facts (InstructionInfo filled by the real analyze()) vs the PC the
     real IL evaluation reached."""
     from binaryninja.enums import BranchType as BT
     info = ev.instruction_info
     M20 = 0xFFFFF
+    if hook is not None:
+        # the facts must be the ones the architecture callback hands to Binary Ninja, not only those of analyze()
+        try:
+            hk = _hook_branches(eng, hook[0], hook[1], length)
+            eng.prove("hook:info-accepts", z3.BoolVal(hk is not None), detail=text)
+        except core.EngineSignal:
+            raise
+        except BaseException as e:  # noqa: BLE001
+            eng.prove("hook:info:no-exception", z3.BoolVal(False), detail=f"{text}: {type(e).__name__}: {e}")
+            hk = None
+        if hk is not None:
+            hinfo, hbr = hk
+            abr = []
+            for b in list(getattr(info, "branches", []) or []):
+                bt = getattr(b, "type", None)
+                tgt = getattr(b, "target", None)
+                if bt is None and isinstance(b, tuple):
+                    bt, tgt = b[0], (b[1] if len(b) > 1 else None)
+                abr.append((bt, tgt))
+            same_kinds = [k for k, _ in hbr] == [k for k, _ in abr]
+            eng.prove("hook:branch-kinds-are-analyze's", z3.BoolVal(same_kinds), detail=f"{text}: callback {[str(k) for k, _ in hbr]} vs analyze {[str(k) for k, _ in abr]}")
+            if same_kinds:
+                for (k, th), (_k2, ta) in zip(hbr, abr):
+                    if th is None or ta is None:
+                        eng.prove(f"hook:target:{getattr(k, 'name', k)}", z3.BoolVal(th is None and ta is None), detail=text)
+                    else:
+                        eng.prove(f"hook:target:{getattr(k, 'name', k)}", (T(th) & M20) == (T(ta) & M20),
+                                  detail=f"{text}: the target handed to Binary Ninja equals analyze()'s modulo the 20-bit program counter")
     nxt = (at + length) & M20
     eng.prove("info-length", z3.BoolVal(True) if not core.is_sym(info.length) and info.length == length
               else T(info.length) == length, detail=text)
